@@ -30,6 +30,8 @@ Ops == CASE OpsId = 1 -> <<StoreOp, SetOp(FirstSet)>>
          [] OpsId = 2 -> <<StoreOp, StoreOp>>
          [] OpsId = 3 -> <<SetOp(FirstSet), SetOp(FirstSet)>>
          [] OpsId = 4 -> <<StoreOp, SetOp(FirstSet), StoreOp>>
+         [] OpsId = 6 -> <<StoreOp, [op |-> "par", i |-> 0], SetOp(FirstSet)>>       \* with a reader that iterates, searches and queries
+         [] OpsId = 7 -> <<[op |-> "par", i |-> 0], SetOp(FirstSet)>>
          [] OTHER     -> <<StoreOp, SetOp(FirstSet), SetOp(FirstSet)>>
 
 Init == s = [g |-> InitGlobal(Shape), ths |-> [t \in DOMAIN Ops |-> InitThread(Shape, Ops[t])]] /\ sched = <<>>
@@ -47,7 +49,7 @@ Done == \A t \in DOMAIN Ops : s.ths[t].fin
 InvSequential == Done => SequentialResults(Shape, Ops, s)
 \* dataset ops name the member by its rank among the datasets (that is how the harness addresses it)
 SetRank(i) == Cardinality({j \in 1..i : Shape.members[j].kind = "set"})
-HarnessOps == [t \in DOMAIN Ops |-> IF Ops[t].op = "set" THEN [op |-> "set", i |-> Ops[t].i, rank |-> SetRank(Ops[t].i)] ELSE [op |-> "store", i |-> 0, rank |-> 0]]
+HarnessOps == [t \in DOMAIN Ops |-> IF Ops[t].op = "set" THEN [op |-> "set", i |-> Ops[t].i, rank |-> SetRank(Ops[t].i)] ELSE [op |-> Ops[t].op, i |-> 0, rank |-> 0]]
 \* free-running rounds (no schedule): one event per round
 FreeEmit == Rounds = 0 \/ PrintT(<<"REPLAY", ToJson([k \in 1..Rounds |-> [ev |-> "ConcFree", a |-> [shape |-> Shape, ops |-> HarnessOps, round |-> k, big |-> Big]]])>>)
 Emit == (Rounds = 0 /\ Done) => PrintT(<<"REPLAY", ToJson(<<[ev |-> "ConcRun", a |-> [shape |-> Shape, ops |-> HarnessOps, schedule |-> sched]]>>)>>)
